@@ -6,7 +6,7 @@ import json, os, subprocess, sys, tempfile, shutil, time
 
 
 def sh(cmd, cwd=None, timeout=3000):
-    p = subprocess.run(cmd, shell=True, cwd=cwd, capture_output=True, text=True, timeout=timeout)
+    p = subprocess.run(cmd, shell=True, cwd=cwd, capture_output=True, text=True, errors='replace', timeout=timeout)
     return p.returncode, (p.stdout + p.stderr)[-1500:]
 
 
